@@ -366,7 +366,10 @@ def _fold_forms(prog):
         guard(lambda: ex.run_until(fn.body, env, sw))
         nval = guard(lambda: ex.eval(sw.test.left, env))
         even = guard(lambda: ex.eval(sw.body[0].value, env))
-        odd = guard(lambda: ex.eval(sw.orelse[0].value, env))
+        odd_stmt = sw.orelse[0] if sw.orelse else next((s_ for s_ in fn.body[fn.body.index(sw) + 1:] if isinstance(s_, ast.Return)), None)
+        if odd_stmt is None or not isinstance(odd_stmt, ast.Return):
+            raise AnalysisError("anchor vanished: odd-parity return of boundary_proposal")
+        odd = guard(lambda: ex.eval(odd_stmt.value, env))
         draw = [a for a in even.all_atoms() if a[0] == "sym" and a[1].startswith("rng.normal")]
         # effective lower edge and width as the code defines them
         lo = env.get("lower", R.sym("self.lower"))
